@@ -1353,8 +1353,8 @@ valueRecordLoop:
 			res.YPlacement = p.readInt16()
 		case isIdentifier(next, "dx"):
 			res.XAdvance = p.readInt16()
-		// case isIdentifier(next, "dy"):
-		// 	res.YAdvance = p.readInt16()
+		case isIdentifier(next, "dy"):
+			res.YAdvance = p.readInt16()
 		default:
 			p.backlog = append(p.backlog, next)
 			break valueRecordLoop
@@ -1362,7 +1362,8 @@ valueRecordLoop:
 	}
 	if res.XPlacement == 0 &&
 		res.YPlacement == 0 &&
-		res.XAdvance == 0 {
+		res.XAdvance == 0 &&
+		res.YAdvance == 0 {
 		return nil
 	}
 	return res
